@@ -312,8 +312,21 @@ def c17(ctx):
     for k, v in init.items():
         if isinstance(v, dict) and "store" in v:
             b = next((b for b in st.buffers if b.id == k), None)
-            if b is not None and list(b.store) != list(v["store"]):
-                yield F("listed-buffer-contents-not-honoured", f"{k}: {b.store} vs {v['store']}")
+            if b is None:
+                continue
+            listed = list(v["store"])
+            def written_location(j):
+                e = init.get(j.id)
+                if isinstance(e, dict) and "location" in e:
+                    return e["location"]
+                return inb.id if inb is not None else None
+            located = [j.id for j in st.jobs if written_location(j) == k]
+            exp = listed + [x for x in located if x not in listed]
+            if list(b.store)[:len(listed)] != listed:
+                yield F("listed-buffer-contents-order-not-kept", f"{k}: compiled {list(b.store)}, written {listed}")
+                return
+            if sorted(b.store) != sorted(exp):
+                yield F("listed-buffer-contents-not-honoured", f"{k}: compiled {list(b.store)}, expected {exp}")
                 return
     for x in getattr(ctx.run, "c17_findings", []):
         yield x
